@@ -120,7 +120,7 @@ Qed.
 
 Lemma close_parts_cases : forall f,
   (exists e, felems f = [e] /\ close_parts f = (PLit [LB] :: e ++ [PLit [RB]], false)) \/
-  close_parts f = ([PBrace (fseq f) (felems f)], true) \/
+  (close_parts f = ([PBrace (fseq f) (felems f)], true) /\ (fseq f = true -> seq_broken (felems f) = false)) \/
   (fseq f = true /\ close_parts f = (PLit [LB] :: flat_elems [DOT; DOT] (felems f) ++ [PLit [RB]], false)).
 Proof.
   intros f. unfold close_parts. destruct (felems f) as [|e [|e' es]]; cbv zeta.
@@ -128,7 +128,7 @@ Proof.
   - left. exists e. auto.
   - right. destruct (fseq f); cbv beta iota; simpl negb; cbv iota.
     + destruct (seq_broken (e :: e' :: es)); auto.
-    + auto.
+    + left. split; [reflexivity|discriminate].
 Qed.
 
 Lemma felems_single : forall f e, felems f = [e] -> fdone f = [] /\ facc f = e.
@@ -141,7 +141,7 @@ Qed.
 Lemma render_close_parts : forall f, render (fst (close_parts f)) = frame_text f ++ [RB].
 Proof.
   intros f.
-  destruct (close_parts_cases f) as [[e [E ->]]|[->|[Sq ->]]]; simpl fst.
+  destruct (close_parts_cases f) as [[e [E ->]]|[[-> _]|[Sq ->]]]; simpl fst.
   - apply felems_single in E. destruct E as [D A].
     rewrite render_cons, render_app, render_lit1. unfold frame_text. rewrite D, A. reflexivity.
   - rewrite render_cons, render_nil, app_nil_r, render_brace, join_felems.
@@ -243,3 +243,417 @@ Qed.
 
 Theorem split_preserves_text' : forall w, render (snd (split_braces w)) = render [PLit w].
 Proof. intros w. now rewrite split_preserves_text, render_lit1. Qed.
+
+(* ------------------------------------------------------------------ a generic invariant principle for the byte loop *)
+
+Lemma scan_preserves : forall (P : state -> Prop),
+  (forall p st, P st -> P (flush p st)) ->
+  (forall st, P st -> P (open_brace st)) ->
+  (forall p tp f r fd, P (mkState tp (f :: r) fd) -> P (do_comma (flush_frame p f) r (mkState tp (f :: r) fd))) ->
+  (forall p tp f r fd, P (mkState tp (f :: r) fd) -> P (do_dots (flush_frame p f) r (mkState tp (f :: r) fd))) ->
+  (forall p tp f r fd, P (mkState tp (f :: r) fd) -> P (do_close (flush_frame p f) r (mkState tp (f :: r) fd))) ->
+  forall n w, (length w <= n)%nat -> forall pend st st' pend',
+  P st -> scan w pend st = (st', pend') -> P st'.
+Proof.
+  intros P Hfl Hop Hco Hdo Hcl.
+  induction n as [|n IHn]; intros w Hn pend st st' pend' HP H.
+  { destruct w; [|simpl in Hn; lia]. simpl in H. now injection H as <- <-. }
+  destruct w as [|c rest]; simpl in H.
+  { now injection H as <- <-. }
+  simpl in Hn.
+  assert (IH: forall w', (length w' <= length rest)%nat -> forall pend st st' pend',
+            P st -> scan w' pend st = (st', pend') -> P st').
+  { intros w' Hw'. apply IHn. lia. }
+  assert (IHr := IH rest (Nat.le_refl _)).
+  assert (IHr': forall d rest', rest = d :: rest' -> forall pend st st' pend',
+            P st -> scan rest' pend st = (st', pend') -> P st').
+  { intros d rest' ->. apply IH. simpl. lia. }
+  clear IH IHn Hn.
+  destruct (c =? BS).
+  { destruct rest as [|d rest'].
+    - now injection H as <- <-.
+    - eapply (IHr' d rest' eq_refl); eauto. }
+  destruct (c =? LB).
+  { eapply IHr; [|exact H]. auto. }
+  destruct st as [tp fs fd]. simpl opn in H. destruct fs as [|f r].
+  { eapply IHr; eauto. }
+  destruct (c =? COMMA).
+  { eapply IHr; [|exact H]. auto. }
+  destruct (c =? DOT).
+  { destruct rest as [|d rest'].
+    - eapply IHr; eauto.
+    - destruct (d =? DOT).
+      + destruct (negb (fseq f) && Nat.ltb 1 (length (felems f))).
+        * eapply IHr; eauto.
+        * eapply (IHr' d rest' eq_refl); [|exact H]. auto.
+      + eapply IHr; eauto. }
+  destruct (c =? RB).
+  { eapply IHr; [|exact H]. auto. }
+  eapply IHr; eauto.
+Qed.
+
+(* ------------------------------------------------------------------ the returned flag *)
+
+Definition hb_frame (f : frame) : bool := existsb has_brace (felems f).
+Definition hb_state (st : state) : bool := has_brace (top st) || existsb hb_frame (opn st).
+
+Lemma has_brace_app : forall a b, has_brace (a ++ b) = has_brace a || has_brace b.
+Proof. induction a as [|[s|sq es] a IH]; intros b; simpl; auto. Qed.
+
+Lemma has_brace_flat : forall sp es, has_brace (flat_elems sp es) = existsb has_brace es.
+Proof.
+  induction es as [|e es IH]; [reflexivity|].
+  destruct es as [|e' es'].
+  - simpl. now rewrite orb_false_r.
+  - change (flat_elems sp (e :: e' :: es')) with (e ++ PLit sp :: flat_elems sp (e' :: es')).
+    rewrite has_brace_app.
+    change (has_brace (PLit sp :: flat_elems sp (e' :: es'))) with (has_brace (flat_elems sp (e' :: es'))).
+    rewrite IH. reflexivity.
+Qed.
+
+Lemma has_brace_lit_of : forall p, has_brace (lit_of p) = false.
+Proof. destruct p; reflexivity. Qed.
+
+Lemma hb_frame_alt : forall f, hb_frame f = existsb has_brace (fdone f) || has_brace (facc f).
+Proof. intros; unfold hb_frame, felems. rewrite existsb_app. simpl. now rewrite orb_false_r. Qed.
+
+Lemma hb_add_parts : forall ps st, hb_state (add_parts ps st) = hb_state st || has_brace ps.
+Proof.
+  intros ps [tp [|f r] fd]; unfold add_parts, hb_state; simpl.
+  - rewrite has_brace_app. now rewrite !orb_false_r.
+  - rewrite !hb_frame_alt. simpl. rewrite has_brace_app.
+    destruct (has_brace tp), (existsb has_brace (fdone f)), (has_brace (facc f)), (has_brace ps), (existsb hb_frame r); reflexivity.
+Qed.
+
+Lemma hb_flush_frame : forall p f, hb_frame (flush_frame p f) = hb_frame f.
+Proof.
+  intros. rewrite !hb_frame_alt. unfold flush_frame; simpl.
+  now rewrite has_brace_app, has_brace_lit_of, orb_false_r.
+Qed.
+
+Definition flag_inv (st : state) : Prop := found st = hb_state st.
+
+Lemma close_parts_hb : forall f, has_brace (fst (close_parts f)) = snd (close_parts f) || hb_frame f.
+Proof.
+  intros f. destruct (close_parts_cases f) as [[e [E ->]]|[[-> _]|[Sq ->]]]; simpl fst; simpl snd; try reflexivity.
+  - unfold hb_frame. rewrite E. simpl. rewrite has_brace_app. simpl. now rewrite !orb_false_r.
+  - simpl. rewrite has_brace_app, has_brace_flat. simpl. now rewrite orb_false_r.
+Qed.
+
+Lemma hb_frame_mk : forall sq d a, hb_frame (mkFrame sq d a) = existsb has_brace d || has_brace a.
+Proof. intros. now rewrite hb_frame_alt. Qed.
+
+Lemma hb_do_comma : forall f r st,
+  hb_state (do_comma f r st) = has_brace (top st) || (hb_frame f || existsb hb_frame r) /\
+  found (do_comma f r st) = found st.
+Proof.
+  intros f r st. unfold do_comma. destruct (fseq f); unfold hb_state; cbn [top opn found existsb]; split; try reflexivity;
+    rewrite hb_frame_mk; cbn [existsb has_brace]; rewrite ?has_brace_flat, ?orb_false_r; reflexivity.
+Qed.
+
+Lemma hb_do_dots : forall f r st,
+  hb_state (do_dots f r st) = has_brace (top st) || (hb_frame f || existsb hb_frame r) /\
+  found (do_dots f r st) = found st.
+Proof.
+  intros f r st. unfold do_dots, hb_state; cbn [top opn found existsb]; split; try reflexivity.
+  rewrite hb_frame_mk; cbn [existsb has_brace]; rewrite ?orb_false_r; reflexivity.
+Qed.
+
+Lemma hb_do_close : forall f r st,
+  found st = has_brace (top st) || (hb_frame f || existsb hb_frame r) ->
+  found (do_close f r st) = hb_state (do_close f r st).
+Proof.
+  intros f r st H. unfold do_close. pose proof (close_parts_hb f) as C.
+  destruct (close_parts f) as [ps fnd]. simpl in C. cbn [found].
+  change (hb_state {| top := top (add_parts ps {| top := top st; opn := r; found := found st |});
+                      opn := opn (add_parts ps {| top := top st; opn := r; found := found st |}); found := found st || fnd |})
+    with (hb_state (add_parts ps {| top := top st; opn := r; found := found st |})).
+  rewrite hb_add_parts. rewrite H. unfold hb_state. cbn [top opn].
+  destruct (has_brace (top st)), (hb_frame f), (existsb hb_frame r), fnd, (has_brace ps); simpl in *; congruence.
+Qed.
+
+Lemma flag_inv_scan : forall w pend st st' pend',
+  flag_inv st -> scan w pend st = (st', pend') -> flag_inv st'.
+Proof.
+  intros w. apply (scan_preserves flag_inv) with (n := length w); try lia.
+  - intros p st H. unfold flag_inv, flush in *. rewrite hb_add_parts, has_brace_lit_of, orb_false_r.
+    rewrite <- H. destruct st as [tp [|f r] fd]; reflexivity.
+  - intros [tp fs fd] H. unfold flag_inv, open_brace, hb_state in *. simpl in *. exact H.
+  - intros p tp f r fd H. unfold flag_inv in *.
+    destruct (hb_do_comma (flush_frame p f) r {| top := tp; opn := f :: r; found := fd |}) as [A B].
+    rewrite A, B, hb_flush_frame. exact H.
+  - intros p tp f r fd H. unfold flag_inv in *.
+    destruct (hb_do_dots (flush_frame p f) r {| top := tp; opn := f :: r; found := fd |}) as [A B].
+    rewrite A, B, hb_flush_frame. exact H.
+  - intros p tp f r fd H. apply hb_do_close. rewrite hb_flush_frame. exact H.
+Qed.
+
+Lemma has_brace_unclosed : forall fs inner tp,
+  has_brace (unclosed fs inner tp) = has_brace tp || existsb hb_frame fs || has_brace inner.
+Proof.
+  induction fs as [|f r IH]; intros inner tp; simpl.
+  - now rewrite has_brace_app, orb_false_r.
+  - rewrite IH. simpl has_brace at 2. rewrite has_brace_flat, existsb_app. simpl. rewrite has_brace_app.
+    rewrite hb_frame_alt.
+    destruct (has_brace tp), (existsb hb_frame r), (existsb has_brace (fdone f)), (has_brace (facc f)), (has_brace inner); reflexivity.
+Qed.
+
+Theorem split_flag : forall w, fst (split_braces w) = has_brace (snd (split_braces w)).
+Proof.
+  intros w. unfold split_braces.
+  destruct (negb (contains_byte LB w)); [reflexivity|].
+  destruct (scan w [] (mkState [] [] false)) as [st pend] eqn:E.
+  apply flag_inv_scan in E; [|reflexivity].
+  assert (F: flag_inv (flush pend st)).
+  { unfold flag_inv, flush in *. rewrite hb_add_parts, has_brace_lit_of, orb_false_r, <- E.
+    destruct st as [tp [|f r] fd]; reflexivity. }
+  destruct (found (flush pend st)) eqn:Fd; simpl.
+  - rewrite has_brace_unclosed. simpl. rewrite orb_false_r. unfold flag_inv in F. rewrite Fd in F. exact F.
+  - reflexivity.
+Qed.
+
+(* "a BraceExp exists in the result", at any depth *)
+Fixpoint deep_brace (w : word) : bool :=
+  match w with
+  | [] => false
+  | PLit _ :: w' => deep_brace w'
+  | PBrace _ _ :: _ => true
+  end.
+
+Theorem split_reports : forall w,
+  fst (split_braces w) = true <-> exists sq es, In (PBrace sq es) (snd (split_braces w)).
+Proof.
+  intros w. rewrite split_flag. generalize (snd (split_braces w)) as l.
+  induction l as [|[s|sq es] l IH]; simpl.
+  - split; [discriminate|]. intros (sq & es & []).
+  - rewrite IH. split; intros (sq & es & H); exists sq, es; [now right|].
+    destruct H as [H|H]; [discriminate|exact H].
+  - split; [|reflexivity]. intros _. exists sq, es. now left.
+Qed.
+
+Theorem split_false_untouched : forall w, fst (split_braces w) = false -> snd (split_braces w) = [PLit w].
+Proof.
+  intros w. unfold split_braces.
+  destruct (negb (contains_byte LB w)); [reflexivity|].
+  destruct (scan w [] (mkState [] [] false)) as [st pend].
+  destruct (found (flush pend st)); simpl; [discriminate|reflexivity].
+Qed.
+
+(* ------------------------------------------------------------------ well-formed trees: what SplitBraces produces *)
+
+Fixpoint wf_part (p : part) : bool :=
+  match p with
+  | PLit _ => true
+  | PBrace sq es => (if sq then negb (seq_broken es) else true) && forallb (forallb wf_part) es
+  end.
+Definition wf_word (w : word) : bool := forallb wf_part w.
+Definition wf_frame (f : frame) : bool := forallb wf_word (felems f).
+Definition wf_state (st : state) : Prop := wf_word (top st) = true /\ forallb wf_frame (opn st) = true.
+
+Lemma wf_word_app : forall a b, wf_word (a ++ b) = wf_word a && wf_word b.
+Proof. intros; unfold wf_word; apply forallb_app. Qed.
+
+Lemma wf_flat_elems : forall sp es, forallb wf_word es = true -> wf_word (flat_elems sp es) = true.
+Proof.
+  induction es as [|e es IH]; [reflexivity|].
+  intros H. simpl in H. apply andb_prop in H. destruct H as [He Hes].
+  destruct es as [|e' es'].
+  - exact He.
+  - change (flat_elems sp (e :: e' :: es')) with (e ++ PLit sp :: flat_elems sp (e' :: es')).
+    rewrite wf_word_app, He. simpl. apply IH. exact Hes.
+Qed.
+
+Lemma wf_lit_of : forall p, wf_word (lit_of p) = true.
+Proof. destruct p; reflexivity. Qed.
+
+Lemma wf_frame_alt : forall f, wf_frame f = forallb wf_word (fdone f) && wf_word (facc f).
+Proof. intros; unfold wf_frame, felems. rewrite forallb_app. simpl. now rewrite andb_true_r. Qed.
+
+Lemma wf_add_parts : forall ps st, wf_word ps = true -> wf_state st -> wf_state (add_parts ps st).
+Proof.
+  intros ps [tp [|f r] fd] Hps [Ht Ho]; unfold add_parts, wf_state in *; simpl in *.
+  - split; [|reflexivity]. now rewrite wf_word_app, Ht, Hps.
+  - split; [exact Ht|]. apply andb_prop in Ho. destruct Ho as [Hf Hr]. rewrite Hr, andb_true_r.
+    rewrite wf_frame_alt in *. simpl. apply andb_prop in Hf. destruct Hf as [Hd Ha].
+    now rewrite Hd, wf_word_app, Ha, Hps.
+Qed.
+
+Lemma wf_flush_frame : forall p f, wf_frame f = true -> wf_frame (flush_frame p f) = true.
+Proof.
+  intros p f H. rewrite wf_frame_alt in *. unfold flush_frame; simpl.
+  apply andb_prop in H. destruct H as [Hd Ha]. now rewrite Hd, wf_word_app, Ha, wf_lit_of.
+Qed.
+
+Lemma wf_close_parts : forall f, wf_frame f = true -> wf_word (fst (close_parts f)) = true.
+Proof.
+  intros f H. unfold wf_frame in H.
+  destruct (close_parts_cases f) as [[e [E ->]]|[[-> B]|[Sq ->]]]; simpl fst.
+  - rewrite E in H. simpl in H. rewrite andb_true_r in H.
+    change (wf_word (PLit [LB] :: e ++ [PLit [RB]])) with (wf_word (e ++ [PLit [RB]])).
+    now rewrite wf_word_app, H.
+  - unfold wf_word. simpl. rewrite andb_true_r.
+    change (forallb (forallb wf_part) (felems f)) with (forallb wf_word (felems f)). rewrite H, andb_true_r.
+    destruct (fseq f); [|reflexivity]. now rewrite B.
+  - change (wf_word (PLit [LB] :: flat_elems [DOT; DOT] (felems f) ++ [PLit [RB]]))
+      with (wf_word (flat_elems [DOT; DOT] (felems f) ++ [PLit [RB]])).
+    rewrite wf_word_app, wf_flat_elems; auto.
+Qed.
+
+Lemma wf_scan : forall w pend st st' pend',
+  wf_state st -> scan w pend st = (st', pend') -> wf_state st'.
+Proof.
+  intros w. apply (scan_preserves wf_state) with (n := length w); try lia.
+  - intros p st H. apply wf_add_parts; [apply wf_lit_of|exact H].
+  - intros [tp fs fd] [Ht Ho]. unfold wf_state, open_brace in *; simpl in *. now rewrite Ho.
+  - intros p tp f r fd [Ht Ho]. simpl in Ht, Ho. apply andb_prop in Ho. destruct Ho as [Hf Hr].
+    apply (wf_flush_frame p) in Hf. unfold wf_state, do_comma.
+    destruct (fseq (flush_frame p f)); simpl; (split; [exact Ht|]); rewrite Hr, andb_true_r.
+    + unfold wf_frame, felems; simpl. rewrite wf_flat_elems; auto.
+    + unfold wf_frame at 1, felems at 1; simpl. rewrite forallb_app. simpl. unfold wf_frame in Hf. now rewrite Hf.
+  - intros p tp f r fd [Ht Ho]. simpl in Ht, Ho. apply andb_prop in Ho. destruct Ho as [Hf Hr].
+    apply (wf_flush_frame p) in Hf. unfold wf_state, do_dots. simpl. split; [exact Ht|]. rewrite Hr, andb_true_r.
+    unfold wf_frame at 1, felems at 1; simpl. rewrite forallb_app. simpl. unfold wf_frame in Hf. now rewrite Hf.
+  - intros p tp f r fd [Ht Ho]. simpl in Ht, Ho. apply andb_prop in Ho. destruct Ho as [Hf Hr].
+    apply (wf_flush_frame p) in Hf. unfold do_close.
+    pose proof (wf_close_parts _ Hf) as C. destruct (close_parts (flush_frame p f)) as [ps fnd]. simpl in C.
+    assert (W: wf_state (add_parts ps {| top := tp; opn := r; found := fd |})).
+    { apply wf_add_parts; [exact C|]. split; assumption. }
+    exact W.
+Qed.
+
+Lemma wf_unclosed : forall fs inner tp,
+  wf_word tp = true -> forallb wf_frame fs = true -> wf_word inner = true -> wf_word (unclosed fs inner tp) = true.
+Proof.
+  induction fs as [|f r IH]; intros inner tp Ht Hf Hi; simpl.
+  - now rewrite wf_word_app, Ht, Hi.
+  - simpl in Hf. apply andb_prop in Hf. destruct Hf as [Hf Hr]. apply IH; auto.
+    change (wf_word (PLit [LB] :: ?x)) with (wf_word x).
+    apply wf_flat_elems. rewrite forallb_app. rewrite wf_frame_alt in Hf. apply andb_prop in Hf. destruct Hf as [Hd Ha].
+    rewrite Hd. simpl. now rewrite wf_word_app, Ha, Hi.
+Qed.
+
+Theorem split_wf : forall w, wf_word (snd (split_braces w)) = true.
+Proof.
+  intros w. unfold split_braces.
+  destruct (negb (contains_byte LB w)); [reflexivity|].
+  destruct (scan w [] (mkState [] [] false)) as [st pend] eqn:E.
+  apply wf_scan in E; [|split; reflexivity].
+  assert (F: wf_state (flush pend st)) by (apply wf_add_parts; [apply wf_lit_of|exact E]).
+  destruct (found (flush pend st)); simpl; [|reflexivity].
+  destruct F as [Ft Fo]. apply wf_unclosed; auto.
+Qed.
+
+(* ------------------------------------------------------------------ expansion of well-formed trees: no panic, enough fuel *)
+
+Lemma seq_values_ok : forall es, seq_broken es = false -> exists vals, seq_values es = Ok vals.
+Proof.
+  intros [|e0 [|e1 more]] H; try discriminate.
+  unfold seq_broken in H. unfold seq_values.
+  unfold seq_elem_kind, parse_ok in H.
+  destruct (parse_int (word_lit e0)) as [v1 ok1], (parse_int (word_lit e1)) as [v2 ok2]. simpl snd in H.
+  destruct ok1, ok2; simpl andb; cbv iota.
+  - eexists; reflexivity.
+  - exfalso. destruct (word_lit e1) as [|c [|? ?]]; simpl in H; try discriminate.
+    destruct (ascii_letter c); simpl in H; try discriminate; destruct more as [|? [|? ?]]; simpl in H;
+      try discriminate; rewrite ?orb_true_r in H; discriminate.
+  - exfalso. destruct (word_lit e0) as [|c [|? ?]]; simpl in H; try discriminate.
+    destruct (ascii_letter c); simpl in H; try discriminate; destruct more as [|? [|? ?]]; simpl in H;
+      try discriminate; rewrite ?orb_true_r in H; discriminate.
+  - destruct (word_lit e0) as [|c [|? ?]]; simpl in H; try discriminate;
+    destruct (word_lit e1) as [|c' [|? ?]]; simpl in H; try discriminate;
+    try (destruct (ascii_letter c); simpl in H; discriminate);
+    eexists; reflexivity.
+Qed.
+
+Lemma seq_values_not_err : forall es c, seq_values es <> Err c.
+Proof.
+  intros [|e0 [|e1 more]] c; try discriminate. unfold seq_values.
+  destruct (parse_int (word_lit e0)) as [v1 ok1], (parse_int (word_lit e1)) as [v2 ok2].
+  destruct (ok1 && ok2); [discriminate|].
+  destruct (word_lit e0); [discriminate|]. destruct (word_lit e1); discriminate.
+Qed.
+
+Lemma flat_res_not : forall {A B} (f : A -> res (list B)) l (bad : res (list B)),
+  (forall a, bad <> Ok a) ->
+  (forall x, In x l -> f x <> bad) -> flat_res f l <> bad.
+Proof.
+  intros A B f l bad Hb. induction l as [|x l IH]; intros H; simpl.
+  - apply not_eq_sym, Hb.
+  - pose proof (H x (or_introl eq_refl)) as Hx.
+    assert (Hl: flat_res f l <> bad) by (apply IH; intros y Hy; apply H; now right).
+    destruct (f x) eqn:Ex.
+    + destruct (flat_res f l) eqn:El; [apply not_eq_sym, Hb|exact Hl|exact Hl].
+    + exact Hx.
+    + exact Hx.
+Qed.
+
+Lemma braces_rec_no_panic : forall fuel w, wf_word w = true -> braces_rec fuel w <> Panic.
+Proof.
+  induction fuel as [|fuel IH]; intros w Hw; [discriminate|].
+  destruct w as [|[s|sq es] rest]; simpl.
+  - discriminate.
+  - simpl in Hw. specialize (IH rest Hw). destruct (braces_rec fuel rest); [discriminate|discriminate|exact IH].
+  - unfold wf_word in Hw. simpl in Hw. apply andb_prop in Hw. destruct Hw as [Hp Hr].
+    apply andb_prop in Hp. destruct Hp as [Hs He].
+    destruct sq.
+    + apply negb_true_iff in Hs. destruct (seq_values_ok es Hs) as [vals ->].
+      apply flat_res_not; [discriminate|]. intros v _. apply IH. exact Hr.
+    + apply flat_res_not; [discriminate|]. intros e Hin. apply IH.
+      rewrite wf_word_app. rewrite forallb_forall in He. unfold wf_word at 1. rewrite (He e Hin). exact Hr.
+Qed.
+
+Lemma word_size_app : forall a b, word_size (a ++ b) = (word_size a + word_size b)%nat.
+Proof. induction a as [|p a IH]; intros b; simpl; [reflexivity|]. unfold word_size in *. simpl. rewrite IH. lia. Qed.
+
+Lemma elem_size_le : forall (es : list word) e, In e es ->
+  (word_size e <= fold_right (fun e a => fold_right (fun q b => part_size q + b) 0 e + a) 0 es)%nat.
+Proof.
+  induction es as [|x es IH]; intros e []; simpl.
+  - subst. unfold word_size. lia.
+  - specialize (IH e H). lia.
+Qed.
+
+Lemma braces_rec_fuel : forall fuel w c, (word_size w < fuel)%nat -> braces_rec fuel w <> Err c.
+Proof.
+  induction fuel as [|fuel IH]; intros w c Hs; [lia|].
+  destruct w as [|[s|sq es] rest]; simpl.
+  - discriminate.
+  - unfold word_size in Hs. simpl in Hs. assert (H: braces_rec fuel rest <> Err c) by (apply IH; unfold word_size; lia).
+    destruct (braces_rec fuel rest); [discriminate|exact H|discriminate].
+  - unfold word_size in Hs. simpl in Hs. fold (word_size rest) in Hs. destruct sq.
+    + pose proof (seq_values_not_err es) as NE. destruct (seq_values es) as [vals|c'|]; [|exfalso; exact (NE c' eq_refl)|discriminate].
+      apply flat_res_not; [discriminate|]. intros v _. apply IH. unfold word_size. simpl. fold (word_size rest). lia.
+    + apply flat_res_not; [discriminate|]. intros e Hin. apply IH. rewrite word_size_app.
+      pose proof (elem_size_le es e Hin). lia.
+Qed.
+
+Theorem expand_split_total : forall w,
+  (exists l, expand (snd (split_braces w)) = Ok l /\ (length l <= limit)%nat) \/
+  (expand (snd (split_braces w)) = Err E_LIMIT /\
+   exists l, braces_rec (S (word_size (snd (split_braces w)))) (snd (split_braces w)) = Ok l /\ (limit < length l)%nat).
+Proof.
+  intros w. unfold expand. set (p := snd (split_braces w)).
+  pose proof (braces_rec_no_panic (S (word_size p)) p (split_wf w)) as NP.
+  pose proof (fun c => braces_rec_fuel (S (word_size p)) p c (Nat.lt_succ_diag_r _)) as NF.
+  destruct (braces_rec (S (word_size p)) p) as [l|c|]; [|exfalso; now apply (NF c)|congruence].
+  destruct (Nat.ltb limit (length l)) eqn:L.
+  - right. split; [reflexivity|]. exists l. split; [reflexivity|]. now apply Nat.ltb_lt.
+  - left. exists l. split; [reflexivity|]. now apply Nat.ltb_ge.
+Qed.
+
+Theorem expand_no_panic : forall w, expand (snd (split_braces w)) <> Panic /\ expand (snd (split_braces w)) <> Err E_FUEL.
+Proof.
+  intros w. destruct (expand_split_total w) as [[l [-> _]]|[-> _]]; split; discriminate.
+Qed.
+
+Theorem expand_error_iff_above_limit : forall w c,
+  expand (snd (split_braces w)) = Err c <->
+  c = E_LIMIT /\ exists l, braces_rec (S (word_size (snd (split_braces w)))) (snd (split_braces w)) = Ok l /\ (limit < length l)%nat.
+Proof.
+  intros w c. destruct (expand_split_total w) as [[l [E L]]|[E X]]; split.
+  - rewrite E; discriminate.
+  - intros [-> [l' [R L']]]. unfold expand in E. rewrite R in E.
+    destruct (Nat.ltb limit (length l')) eqn:B; [discriminate|]. apply Nat.ltb_ge in B. lia.
+  - rewrite E. intros [= <-]. auto.
+  - intros [-> _]. exact E.
+Qed.
